@@ -1,6 +1,6 @@
 //! C10: text encoding is transparent — codecs, lossy UTF-8, line decoding in
 //! the four encodings; cases, implementation run, oracle.
-use super::c08::{fail, bundled_texts, case_c08, decode_bytes, diff_results, dump_lines, encode_text, gen_text, has_lf_byte_unit, impl_lines, lf_cuts_utf16le, lines_via, MapResult, ENC_NAMES, LF_BYTE_CHARS};
+use super::c08::{fail, bundled_texts, case_c08, decode_bytes, diff_results, dump_lines, encode_text, gen_text, impl_lines, lf_cuts_utf16le, lines_via, MapResult, ENC_NAMES, LF_BYTE_CHARS};
 use crate::out::Out;
 use crate::proto::Line;
 use crate::rng::Rng;
@@ -147,9 +147,10 @@ fn four_encodings(out: &mut Out, name: &str, text: &str, with_model: bool) {
     for enc in 1..4 {
         out.oracle_checks += 1;
         if let Some(d) = diff_results(&results[0], &results[enc]) {
-            let class = if enc >= 2 && has_lf_byte_unit(text) { "D5" } else { "" };
+            // no content is exempt: characters whose UTF-16 code units contain a byte 0x0A
+            // (the class of the repaired finding D5) count like any other
             let show: String = text.chars().take(120).collect();
-            fail(out, class, &format!("{name}: text {show:?} as {} vs {}", ENC_NAMES[0], ENC_NAMES[enc]), &d);
+            out.fail("", &format!("{name}: text {show:?} as {} vs {}", ENC_NAMES[0], ENC_NAMES[enc]), &d);
         }
     }
 }
@@ -187,6 +188,75 @@ fn lf_cut_streams(out: &mut Out, name: &str, text: &str, every: usize) {
     }
 }
 
+/// A text in which every string-valued field, a comment, an unknown header, a line of its own
+/// and the last line (without line break) carry characters whose UTF-16 code units contain a
+/// byte 0x0A -- at the start, in the middle and at the end of the field, next to real line
+/// breaks (`\n` or `\r\n`) and to characters that have none.
+fn dense_lf_text(r: &mut Rng, i: usize) -> String {
+    let nl = if i % 3 == 1 { "\r\n" } else { "\n" };
+    let mut v = |r: &mut Rng| -> String {
+        let mut s = String::new();
+        for _ in 0..r.range(1, 5) {
+            match r.below(5) {
+                0 => s.push(*r.pick(&['a', 'Z', '0', '\u{e9}', '\u{6f22}', '\u{1f600}'])),
+                _ => s.push(*r.pick(&LF_BYTE_CHARS)),
+            }
+        }
+        if r.chance(1, 3) {
+            s.push('\u{0a0a}');
+        }
+        s
+    };
+    let mut t = String::new();
+    t += &format!("osu file format v{}{nl}", r.pick(&[14, 9, 5]));
+    t += &format!("// {}{nl}", v(r));
+    t += &format!("[General]{nl}AudioFilename: {}.mp3{nl}SampleSet: {}{nl}{}: {}{nl}", v(r), v(r), v(r), v(r));
+    t += &format!("[Metadata]{nl}");
+    for k in ["Title", "TitleUnicode", "Artist", "ArtistUnicode", "Creator", "Version", "Source", "Tags"] {
+        t += &format!("{k}:{}{nl}", v(r));
+    }
+    t += &format!("[Events]{nl}0,0,\"{}.jpg\",0,0{nl}Video,0,\"{}.avi\"{nl}", v(r), v(r));
+    t += &format!("[{}]{nl}{}{nl}", v(r), v(r));
+    t += &format!("[Colours]{nl}Combo1 : 1,2,3{nl}{} : 4,5,6{nl}", v(r));
+    t += &format!("[HitObjects]{nl}256,192,0,1,0,0:0:0:0:{}.wav{nl}", v(r));
+    t += &format!("[Metadata]{nl}Title:{}", v(r));
+    t
+}
+
+/// The lines of a UTF-16 stream (with BOM) of arbitrary bytes: the bytes are paired into
+/// code units from the start, a lone last byte is dropped, the units are cut behind every
+/// U+000A, each piece is converted lossily (an unpaired surrogate becomes U+FFFD) and
+/// trimmed at the end.  A byte 0x0A that is not the code unit 000A is content.
+fn utf16_stream(out: &mut Out, data: &[u8], le: bool, what: &str) {
+    let desc = format!("{what}: bytes [{}]", hex(data));
+    let res = lines_case(out, data, desc.clone());
+    out.oracle_checks += 1;
+    let units = units_of(&data[2..], le);
+    let odd = data.len() % 2 == 1;
+    let mut want: Vec<String> = units.split_inclusive(|u| *u == 0x000A).map(|l| String::from_utf16_lossy(l).trim_end().to_string()).collect();
+    match &res {
+        Ok(Ok(lines)) => {
+            // a lone last byte behind a complete line is a raw line of its own that decodes to
+            // nothing: one more empty line, which no parser sees
+            let mut lines = lines.clone();
+            if odd {
+                while lines.last().map_or(false, |l| l.is_empty()) {
+                    lines.pop();
+                }
+                while want.last().map_or(false, |l| l.is_empty()) {
+                    want.pop();
+                }
+            }
+            if lines != want {
+                let k = lines.iter().zip(&want).position(|(a, b)| a != b).unwrap_or(lines.len().min(want.len()));
+                out.fail("", &desc, &format!("line {k}: decoder gives {:?}, the code units give {:?} ({} vs {} lines)", lines.get(k), want.get(k), lines.len(), want.len()));
+            }
+        }
+        Ok(Err(e)) => out.fail("", &desc, &format!("line decoder failed with {:?} on an in-memory buffer", e.kind())),
+        Err(p) => out.fail("", &desc, &format!("panic: {p}")),
+    }
+}
+
 /// one scalar value as the only content of `Title:`, in the four encodings
 fn scalar_title(out: &mut Out, c: char, buf: &mut String) {
     buf.clear();
@@ -204,24 +274,27 @@ fn scalar_title(out: &mut Out, c: char, buf: &mut String) {
         // `Title::` is D1 (KeyValue::parse), not an encoding matter: only compare across encodings
         let ok = if c == ':' { titles[enc] == titles[0] } else { titles[enc].as_deref() == Some(want.as_str()) };
         if !ok {
-            let mut u = [0u16; 2];
-            let lf = c != '\n' && c.encode_utf16(&mut u).iter().any(|x| (x & 0xFF) == 0x0A || (x >> 8) == 0x0A);
-            let class = if enc >= 2 && lf { "D5" } else { "" };
-            fail(out, class, &format!("Title:U+{:04X} as {}", c as u32, ENC_NAMES[enc]), &format!("title decodes to {:?}, expected {want:?} (utf8 gives {:?})", titles[enc], titles[0]));
+            out.fail("", &format!("Title:U+{:04X} as {}", c as u32, ENC_NAMES[enc]), &format!("title decodes to {:?}, expected {want:?} (utf8 gives {:?})", titles[enc], titles[0]));
         }
     }
 }
 
-pub const RULE: &str = "Encoding::decode on single buffers (valid text with injected ill-formed UTF-8 sequences of every Table 3-7 class, UTF-16 with lone/swapped surrogates and odd tails, UTF-16LE streams cut right after the low byte of a line feed), std from_utf8 / from_utf8_lossy / decode_utf16 against the transcriptions, Encoding::from_bom on short buffers, and the line decoder over bundled maps and generated .osu texts in UTF-8, UTF-8+BOM, UTF-16LE+BOM, UTF-16BE+BOM (including invalid-byte and surrogate injections into single lines and truncated streams); thorough: all 1-3 byte strings and every Unicode scalar value as Title content; non-trivial = buffer of at least 2 bytes / stream with at least one complete line; distinct = distinct case lines";
+pub const RULE: &str = "Encoding::decode on single buffers (valid text with injected ill-formed UTF-8 sequences of every Table 3-7 class, UTF-16 with lone/swapped surrogates and odd tails, UTF-16LE streams cut right after the low byte of a line feed, UTF-16 texts truncated at every byte, UTF-16 noise over {00, 0A, CR, letters, surrogate halves}), texts whose every string-valued field carries characters with a byte 0x0A in their UTF-16 code units (U+4E0A, U+010A, U+0A00..0AFF, U+FF0A, U+200A, U+1040A), std from_utf8 / from_utf8_lossy / decode_utf16 against the transcriptions, Encoding::from_bom on short buffers, and the line decoder over bundled maps and generated .osu texts in UTF-8, UTF-8+BOM, UTF-16LE+BOM, UTF-16BE+BOM (including invalid-byte and surrogate injections into single lines and truncated streams); thorough: all 1-3 byte strings and every Unicode scalar value as Title content; non-trivial = buffer of at least 2 bytes / stream with at least one complete line; distinct = distinct case lines";
 
 pub fn generate(tier: &str, seed: u64, out: &mut Out) {
     let thorough = tier == "thorough";
     let mut r = Rng::new(seed ^ 0xC10);
 
     // ---- corpus: the recorded findings first
-    // D5: 0x0A inside a UTF-16 code unit
-    four_encodings(out, "corpus-D5", "osu file format v14\n\n[Metadata]\nTitle:上x\n", true);
-    four_encodings(out, "corpus-D5", "osu file format v14\n\n[Metadata]\nTitle:\u{0a41}x\nArtist:y\n", true);
+    // the inputs of the repaired finding D5: a byte 0x0A inside a UTF-16 code unit (low byte,
+    // high byte, a low surrogate) used to end the line; not exempted any more
+    four_encodings(out, "corpus-former-D5", "osu file format v14\n\n[Metadata]\nTitle:上x\n", true);
+    four_encodings(out, "corpus-former-D5", "osu file format v14\n\n[Metadata]\nTitle:\u{0a41}x\nArtist:y\n", true);
+    four_encodings(out, "corpus-former-D5", "osu file format v14\r\n[General]\r\nAudioFilename: \u{010a}\u{1040a}.mp3\r\n[Metadata]\r\nTitle:\u{0a00}\u{0aff}\nTags:\u{ff0a} \u{200a}\n[Events]\n0,0,\"\u{4e0a}\u{0a0a}.jpg\",0,0\n\u{0a0a}", true);
+    for i in 0..4 {
+        let t = dense_lf_text(&mut r, i);
+        four_encodings(out, "corpus-former-D5-dense", &t, true);
+    }
     // the input of the repaired finding D6: UTF-16LE stream cut after the low byte of the last LF
     // (an odd trailing byte 0x0A); not exempted any more
     lf_cut_streams(out, "corpus-former-D6", "osu file format v14\n\n[Metadata]\nTitle:abc\n", usize::MAX);
@@ -402,10 +475,18 @@ pub fn generate(tier: &str, seed: u64, out: &mut Out) {
         let text = gen_text(&mut r, false);
         four_encodings(out, &format!("generated#{i}"), &text, true);
     }
-    // the D5 class, kept apart
-    for i in 0..(if thorough { 400 } else { 40 }) {
+    // texts with characters whose UTF-16 code units contain a byte 0x0A: in metadata values and
+    // file names (gen_text), and in every string-valued field, comment, unknown header and
+    // the last line (dense_lf_text)
+    for i in 0..(if thorough { 1200 } else { 120 }) {
         let text = gen_text(&mut r, true);
         four_encodings(out, &format!("generated-lf-bytes#{i}"), &text, true);
+        out.count("text.with_0x0A_byte_units");
+    }
+    for i in 0..(if thorough { 600 } else { 60 }) {
+        let text = dense_lf_text(&mut r, i);
+        four_encodings(out, &format!("dense-lf-bytes#{i}"), &text, true);
+        out.count("text.with_0x0A_byte_units_in_every_field");
     }
 
     // ---- invalid UTF-8 in one line: U+FFFD as lossy conversion, that line only
@@ -459,16 +540,37 @@ pub fn generate(tier: &str, seed: u64, out: &mut Out) {
 
     // ---- UTF-16LE streams cut right after the low byte of a line feed
     for i in 0..(if thorough { 300 } else { 30 }) {
-        let text = if i % 2 == 0 { gen_text(&mut r, false) } else { smalls[r.below(smalls.len())].1.clone() };
-        if has_lf_byte_unit(&text) {
-            continue; // D5 class: a 0x0A byte inside another code unit shifts the pairing
-        }
+        let text = if i % 2 == 0 { gen_text(&mut r, i % 4 == 0) } else { smalls[r.below(smalls.len())].1.clone() };
         lf_cut_streams(out, "lf-cut", &text, if thorough { 1 } else { 5 });
+    }
+
+    // ---- malformed UTF-16: every truncation point of encoded texts, and noise over the bytes
+    // that matter (0x00, 0x0A, surrogate halves): a byte 0x0A ends a line only as the code unit
+    // 000A at an even offset; a lone last byte is dropped
+    for i in 0..(if thorough { 60 } else { 8 }) {
+        let text = if i % 2 == 0 { dense_lf_text(&mut r, i) } else { gen_text(&mut r, true) };
+        let text: String = text.chars().take(if thorough { 400 } else { 160 }).collect();
+        for le in [true, false] {
+            let full = encode_text(&text, if le { 2 } else { 3 });
+            for k in 2..=full.len() {
+                utf16_stream(out, &full[..k], le, &format!("truncation@{k} of a UTF-16{} text of {} bytes", if le { "LE" } else { "BE" }, full.len()));
+                out.count("lines.utf16_truncation");
+            }
+        }
+    }
+    for _ in 0..(if thorough { 6000 } else { 600 }) {
+        let le = r.chance(1, 2);
+        let mut data: Vec<u8> = if le { vec![0xFF, 0xFE] } else { vec![0xFE, 0xFF] };
+        for _ in 0..r.below(14) {
+            data.push(*r.pick(&[0x00u8, 0x00, 0x0A, 0x0A, 0x0A, 0x41, 0x4E, 0x20, 0x0D, 0xD8, 0xDC, 0xFF]));
+        }
+        utf16_stream(out, &data, le, "UTF-16 noise over {00, 0A, letters, CR, surrogate halves}");
+        out.count("lines.utf16_noise");
     }
 
     // ---- unpaired surrogates in one line of a UTF-16 stream; odd tails
     for i in 0..(if thorough { 3000 } else { 300 }) {
-        let text = if i % 2 == 0 { gen_text(&mut r, false) } else { smalls[r.below(smalls.len())].1.clone() };
+        let text = if i % 2 == 0 { gen_text(&mut r, i % 6 == 0) } else { smalls[r.below(smalls.len())].1.clone() };
         let le = r.chance(1, 2);
         let mut units: Vec<u16> = text.encode_utf16().collect();
         let ninj = r.range(0, 2);
@@ -490,8 +592,7 @@ pub fn generate(tier: &str, seed: u64, out: &mut Out) {
         // expected: split the unit sequence at U+000A, lossy conversion per line;
         // an odd trailing byte is dropped
         let want: Vec<String> = units.split_inclusive(|u| *u == 0x000A).map(|l| String::from_utf16_lossy(l).trim_end().to_string()).collect();
-        let lf_units = units.iter().any(|u| *u != 0x000A && ((u & 0xFF) == 0x0A || (u >> 8) == 0x0A));
-        let class = if lf_units { "D5" } else { "" };
+        let class = "";
         match &res {
             Ok(Ok(lines)) => {
                 // the odd trailing byte is dropped; a final buffer holding only
